@@ -292,6 +292,7 @@ func newValue_String(name string, kind ValueKind, typ *String) *aString {
 	v.aStruct = *newValue_Struct(name, kind, typ.underlying)
 	if kind == ValueKindConst {
 		v.aStruct.setFieldConstValue("b", NewConst("0", typ._u8_block))
+		VerifEvent("use", currentModule)
 		ptr := currentModule.DataSeg.Append([]byte(name), 1)
 		v.aStruct.setFieldConstValue("d", NewConst(strconv.Itoa(ptr), typ._u8_ptr))
 		v.aStruct.setFieldConstValue("l", NewConst(strconv.Itoa(len(name)), typ._u32))
